@@ -57,4 +57,11 @@ theorem subgraphFormula_sat_iff_reachable (n m : Nat) (opsG opsH : List GOp) (in
     (∃ α, (subgraphFormula G H ind sb).holds α = true) ↔ ∃ l, C02.IsEmbTable G H ind sb l :=
   C02.subgraphFormula_sat_iff _ _ (g2GoodGraph_history n opsG) (g2GoodGraph_history m opsH) ind sb
 
+/-- the Ramsey-witness formula of a reachable graph is satisfiable iff the graph has a `k`-clique or an independent
+set of size `s` — every `k`, `s` (D25 fixed), both symmetry modes -/
+theorem ramseyWitness_sat_iff_reachable (n : Nat) (ops : List GOp) (k s : Nat) (sb : Bool) :
+    let G := (SimpleG.init n).run ops
+    (∃ α, (ramseyWitnessCore G k s sb).holds α = true) ↔ (C02.HasClique G k ∨ C02.HasIndep G s) :=
+  C02.ramseyWitness_sat_iff _ (g2GoodGraph_history n ops) k s sb
+
 end Cnfgen.C16
